@@ -119,7 +119,14 @@ pub fn run(ctx: &Ctx, rep: &mut Report) {
                 let app_sc = sc_addr(app);
                 ctr += 1;
                 let chain = rng.pick(&[b"ethereum".to_vec(), b"e".to_vec(), b"".to_vec(), b"Ethereum-Sepolia".to_vec(), "Ætherium ü".as_bytes().to_vec()]).clone();
-                let id = format!("msg-{}-{}", round, ctr).into_bytes();
+                // message ids of ordinary and of unusual length
+                let mut id = format!("msg-{}-{}", round, ctr).into_bytes();
+                if rng.chance(1, 4) {
+                    let len = *rng.pick(&[65usize, 129, 200, 300, 1100]);
+                    while id.len() < len {
+                        id.push(b"0123456789abcdefXYZ"[id.len() % 19]);
+                    }
+                }
                 let src = format!("0x{}", hex(&rng.bytes(6))).into_bytes();
                 let payload = if rng.chance(1, 6) { rng.bytes_of(&[1100, 4200, 9000, 17000]) } else { rng.bytes_upto(80) };
                 let conforming = MMessage {
